@@ -1,7 +1,7 @@
 """rules about the Thrift skippers (shared by C07, C09, C12)"""
 import re
 import mirlib
-from mirlib import show, nosite, strip_casts, subexprs
+from mirlib import show, nosite, strip_casts, subexprs, short
 
 
 def find_skippers(prog):
@@ -493,3 +493,64 @@ def _ceval(b, e, prog, cg, depth):
         if nm == 'size_of':
             return None
     return None
+
+
+RAW_MULTIBYTE = re.compile(r'::get_(u|i)(16|32|64|128)(_le|_ne)?$|::get_f(32|64)(_le|_ne)?$|::read_(u|i)(16|32|64)(_le)?$')
+
+
+def shared_skipper_is_order_neutral(rep, rule, prog):
+    """the default in-memory skipper is inherited by a big-endian and a little-endian protocol: whatever multi-byte value it
+    reads (the length of a string, a container count) must come through the protocol's own read_* method, never through a
+    byte-order-specific Buf::get_* on the raw buffer; likewise the async default skipper and tokio's read_u16/32/64"""
+    sk = find_skippers(prog)
+    for name in ('sync_default', 'async_default'):
+        b = sk.get(name)
+        key = '%s|%s|byte order' % (rule, name)
+        if b is None:
+            rep.anchor_missing(rule, 'skipper ' + name)
+            continue
+        raw = [cs for cs in b.calls() if RAW_MULTIBYTE.search(cs.callee) and not is_protocol_read(cs)]
+        if raw:
+            rep.bad(rule, key, raw[0].loc(), 'skipper %s reads a multi-byte value with %s: this body is shared by protocols of both byte orders, so the value is wrong for one of them (lengths / counts must be read through self.read_i32() etc.)' % (name, short(raw[0].callee)))
+        else:
+            rep.ok(rule, key, 'multi-byte values are read through the protocol\'s own read_* methods only', b.loc())
+
+
+def is_protocol_read(cs):
+    return 'TInputProtocol' in cs.callee or 'TAsyncInputProtocol' in cs.callee or 'TLengthProtocol' in cs.callee
+
+
+def binary_arm_reader_accepts_any_bytes(rep, rule, prog, cg):
+    """a skipped Binary value is arbitrary bytes: the reader method a read-based skipper uses for it must not validate UTF-8"""
+    import thrift_pairs as tp
+    import codec
+    sk = find_skippers(prog)
+    for sname, fams in (('async_default', (('binary', 'A'), ('binary_le', 'A'), ('compact', 'A'))), ('sync_compact', (('compact', 'R'),))):
+        b = sk.get(sname)
+        if b is None:
+            rep.anchor_missing(rule, 'skipper ' + sname)
+            continue
+        sw = type_switch(b, prog)
+        if sw is None:
+            rep.anchor_missing(rule, 'match on TType in skipper ' + sname)
+            continue
+        reg = arm_regions(b, sw).get('Binary', ())
+        readers = sorted({cs.name for cs in b.calls() if cs.bb in reg and cs.name.startswith('read_')})
+        if not readers:
+            rep.anchor_missing(rule, 'reader call in the Binary arm of ' + sname)
+            continue
+        for fname, which in fams:
+            fam = tp.Fam(prog, cg, fname)
+            d = fam.A if which == 'A' else fam.R
+            for rn in readers:
+                r = d.get(rn)
+                key = '%s|%s Binary arm|%s %s' % (rule, sname, fname, rn)
+                if r is None:
+                    rep.anchor_missing(rule, '%s %s reader %s' % (fname, which, rn))
+                    continue
+                body = codec.effective_body(r, cg)
+                val = [cs for cs in body.calls() if re.search(r'::from_utf8$|::from_utf8_lossy$|::from_utf8_mut$|simdutf8', cs.callee)]
+                if val:
+                    rep.bad(rule, key, val[0].loc(), 'skipper %s skips every Binary value through %s %s, which validates UTF-8 (%s): a binary payload that is not UTF-8 makes skip fail, so the fields after it are never decoded' % (sname, fname, rn, short(val[0].callee)))
+                else:
+                    rep.ok(rule, key, 'no UTF-8 validation on the path the skipper uses for Binary', r.loc())
